@@ -114,6 +114,33 @@ class Script:
         return None
 
 
+def check_table_io(rep):
+    """R19.3: which column of a table line reaches which output array of readin_table / readin_table_err (op-tree of the subs, compile only)"""
+    from vsa import perlops
+    want = {"readin_table": {1: 0, 2: 1, 3: "last"}, "readin_table_err": {1: 0, 2: 1, 3: 2, 4: "last"}}
+    role = {"readin_table": {1: "x", 2: "y", 3: "flag"}, "readin_table_err": {1: "x", 2: "y", 3: "error", 4: "flag"}}
+    n = 0
+    for sub, w in want.items():
+        root = perlops.load_sub(DIR + "CsgFunctions.pm", sub)
+        table, matched = perlops.push_table(root, "parts")
+        for k_, col in sorted(w.items()):
+            got = table.get(k_, [])
+            n += 1
+            ok = len(got) == 1 and got[0][0] == col
+            rep.check(ok, "R19.3", "column|%s|%s" % (sub, role[sub][k_]), "%s <- column %s" % (role[sub][k_], col),
+                      "CsgFunctions.pm %s: the %s array (argument %d) is filled from column(s) %s of the line, required column %s - a table with an extra column before the flag "
+                      "(x y y_err flag, as csg_stat and csg_resample write) is read with the wrong %s, so every table tool built on it changes the flag semantics"
+                      % (sub, role[sub][k_], k_, [g_[0] for g_ in got] or "none", col, role[sub][k_]),
+                      "%s:%s" % (front.repo(DIR + "CsgFunctions.pm"), got[0][1] if got else 0), sample=(role[sub][k_] == "flag"))
+        flag_src = [g_[0] for g_ in table.get(max(w), [])]
+        val = [m_[0] for m_ in matched if m_[0] not in (None,)]
+        n += 1
+        rep.check(bool(val) and bool(flag_src) and all(v_ == flag_src[0] for v_ in val if v_ == "last" or isinstance(v_, int)) and "last" in val,
+                  "R19.3", "validated-is-stored|" + sub, "the column checked against /[iou]/ is the stored flag column",
+                  "CsgFunctions.pm %s validates column(s) %s as the flag but stores column %s" % (sub, val, flag_src), "%s:%s" % (front.repo(DIR + "CsgFunctions.pm"), matched[0][1] if matched else 0))
+    rep.floor("R19.3", n, 9, "column obligations of readin_table / readin_table_err")
+
+
 def run(rep, tier):
     rep.explanation = ("The Perl compiler's op-tree (perl -MO=Concise; compile phase only, nothing is executed) of each script is folded: scalars "
                        "through their definitions (conditional definitions become ite terms, user subs are inlined through `my (...) = @_`), array "
@@ -129,6 +156,8 @@ def run(rep, tier):
                       "integration by the trapezoid recurrence; scaling y * (p1 + (p2 - p1) w) with w linear from 0 at the first to 1 at the last point; extrapolation functions f(x0, y0, m, x) continue "
                       "the table: f(x0) = y0 and f'(x0) = m, applied outside the flagged region with the anchor point and a finite-difference slope")
     rep.rule("R19.2", "pass-through: the x array and the flag array written by saveto_table* are the ones filled by readin_table* (grid and flags preserved)")
+    rep.rule("R19.3", "CsgFunctions.pm column tables: readin_table stores column 0 as x, column 1 as y and the LAST column as flag; readin_table_err stores columns 0, 1, 2 as "
+                      "x, y, error and the LAST column as flag; the column validated as a flag (=~ /[iou]/) is the column stored as the flag")
     scripts = ["update_ibi_pot.pl", "dist_boltzmann_invert.pl", "table_linearop.pl", "potential_shift.pl", "table_smooth.pl", "table_integrate.pl"]
     rep.units = [front.repo(DIR + s_) for s_ in scripts]
     rep.trusted.append("perl's own compiler (B::Concise op-tree), vsa/perlfold.py")
@@ -141,10 +170,11 @@ def run(rep, tier):
     check_integrate(rep)
     check_scale(rep)
     check_extrapolate(rep)
-    rep.units = list(rep.units) + [front.repo(DIR + "table_scale.pl"), front.repo(DIR + "table_extrapolate.pl")]
+    check_table_io(rep)
+    rep.units = list(rep.units) + [front.repo(DIR + "table_scale.pl"), front.repo(DIR + "table_extrapolate.pl"), front.repo(DIR + "CsgFunctions.pm")]
     rep.assumptions += ["shell wrappers (csg_table, csg_call), table_combine (its operation is an eval of a run-time string) and csg_resample's differentiation are not covered",
                         "integration and differentiation being mutually inverse up to discretisation error is numerical: not decided",
-                        "CsgFunctions.pm's readin/saveto column order is trusted (its parsing loops are not folded)"]
+                        "CsgFunctions.pm: the column tables of readin_table / readin_table_err are read off the op-tree (R19.3); the saveto_* printf formats are trusted"]
 
 
 # ------------------------------------------------------------------------------------------------ update_ibi_pot.pl
